@@ -408,7 +408,7 @@ func (w *world) run(id string, a attempt, who string, spName string, depth int) 
 		return
 	}
 	after, _ := snap.Take(w.jail, nil)
-	reached := !(resp.Status == 403 && (resp.ErrCode() == "SignatureDoesNotMatch" || resp.ErrCode() == "InvalidAccessKeyId")) 
+	reached := !(resp.Status == 403 && (resp.ErrCode() == "SignatureDoesNotMatch" || resp.ErrCode() == "InvalidAccessKeyId"))
 	if reached {
 		c.Distinct(fmt.Sprintf("%s|%s|%s|d%d|%s", a.param, a.op, spName, depth, who))
 	}
